@@ -26,3 +26,11 @@ def gen(rng, tier):
         else:
             cases.append(queues.random_history(rng, rng.randint(5, 40), drain=True))
     return cases
+
+PINNED = ['C04_step_terminates', 'C04_terminates', 'C04_holds', 'C04_model_sync']
+LEVEL_TEXT = 'Theorem: no call of the model exhausts its fuel from ANY state (push_to_global makes progress or stops), hence no history diverges. Tied to the code by fill/steal/fill histories under a watchdog; a call that never returns is the observation `diverged`.'
+LEVEL_NOTE = ("Trusted: Coq kernel + vm_compute; hand transcription of ordered_work_steal.rs (model OWS.v) validated on the "
+              "sampled histories only; st3 rings / crossbeam injectors / skiplist modelled as FIFO lists and a sorted map; "
+              "sequential histories (one call at a time); the steal start index is an input via the build.rs import "
+              "rewrite. The plain WorkStealQueue is not modelled. No axioms (closed under the global context).")
+TECHNIQUE = "Coq proof (invariants over all histories of a Gallina model) + lockstep differential correspondence inside Coq"
